@@ -35,7 +35,9 @@ Inductive cl_r := ClAbsent (* header missing or empty *) | ClInt (z : Z) (* int(
 (* r_method: `getattr(self, "do_" + METHOD)` exists.  The gate does not look at WHICH method it is: the size check
    applies to every dispatched method alike (the correspondence instantiates r_method = true with every do_ method). *)
 Record req := mkReq { r_pref : prefix_r; r_method : bool (* do_<METHOD> exists *); r_wk : wk_r;
-                      r_auth : auth_r; r_cl : cl_r }.
+                      r_auth : auth_r; r_cl : cl_r;
+                      r_body : bool (* the handler of this method reads the declared body from the socket
+                                       (read_raw_request_body with a non-zero Content-Length) *) }.
 
 Record gcfg := mkG { internal : bool (* [server] _internal_server, set by serve() *);
                      max_len : Z (* [server] max_content_length, >= 0 by config.positive_int *) }.
@@ -88,21 +90,31 @@ Record config := mkCfg { max_conn : Z      (* [server] max_connections; <= 0 mea
                          gc : gcfg;
                          n_listen : N      (* number of listening sockets (entries of `servers`) *) }.
 
-Inductive cstate := CIdle             (* the client has sent nothing the thread could read *)
-                  | CSent (m : reqmsg)
-                  | CClosed.          (* the client closed its end *)
+(* what the client has delivered so far.  The silence of a client can begin in every one of these phases. *)
+Inductive cstate := CIdle             (* nothing yet *)
+                  | CPartial          (* part of the request head (request line / headers), not the end of it *)
+                  | CSent (m : reqmsg) (full : bool)
+                                      (* the complete head; full = the declared body has been delivered completely
+                                         (or there is none); false = the body is outstanding, wholly or in part *)
+                  | CClosed.          (* the client closed its end before sending anything *)
 
 Inductive outcome := OResp (st : N)   (* answered by http.server / the gate without entering a handler *)
                    | OHandled         (* the handler returned and its response was written completely *)
-                   | OTimeout         (* socket.timeout while waiting for the request *)
+                   | OTimeout         (* socket.timeout while waiting for the request head *)
+                   | OAborted         (* socket.timeout inside the handler while it waited for the request body: the
+                                         handler ends (the real handlers catch it and answer 408 REQUEST_TIMEOUT; an
+                                         exception that escapes a handler is answered 500 by __call__) *)
                    | OEof.            (* the client closed before sending a request *)
 
 (* WReading starts AT ACCEPT: get_request calls settimeout before the thread exists, so the socket timeout covers
    everything the thread does before a request is there -- with ssl = True that includes the TLS handshake
-   (ParallelHTTPSServer.finish_request_locked), then rfile.readline.  TTimeout is enabled in WReading as long as the
-   client has sent nothing the thread could complete its read with (CIdle), from the accept on. *)
+   (ParallelHTTPSServer.finish_request_locked), then rfile.readline / parse_request, and later the handler's
+   wsgi.input.read (WBody).  TTimeout is enabled whenever the thread waits for the client (`waits_for_client`): from the
+   accept on, while the head is incomplete (nothing sent, or silence in the middle of the head), and inside the handler
+   while the declared body is incomplete (none of it sent, or silence in the middle of it). *)
 Inductive wstatus := WReading         (* thread waits for the client: TLS handshake (https), then rfile.readline *)
-                   | WHandling        (* thread inside the application handler do_* *)
+                   | WBody            (* thread inside the handler do_*, blocked in wsgi.input.read(Content-Length) *)
+                   | WHandling        (* thread inside the handler do_*, not waiting for the client *)
                    | WDone (o : outcome). (* finish_request's finally ran: worker_socket closed, so the
                                              entry of worker_sockets is readable; not yet reaped *)
 
@@ -127,12 +139,16 @@ Definition init : state := mkS PTop [] [] false 0%N [] [] [].
 
 Inductive event :=
   | EConnect (l : N)             (* a client completes connect() to listener l *)
-  | ESend (c : N) (m : reqmsg)   (* client c sends its request (queued or accepted) *)
+  | EPartial (c : N)             (* client c sends a part of the request head *)
+  | ESend (c : N) (m : reqmsg) (full : bool)
+                                 (* client c completes the request head (queued or accepted); full: with all of the body *)
+  | EBody (c : N)                (* client c delivers the rest of the declared body *)
   | EClose (c : N)               (* client c closes without having sent anything *)
   | ERelease (c : N)             (* the handler of c returns, the response is written, the thread closes worker_socket *)
   | EStop                        (* the other end of the shutdown socket is closed *)
   | TRead (c : N)                (* thread of c reads what the client sent and runs http.server + gate *)
-  | TTimeout (c : N)             (* socket.timeout in the thread of c *)
+  | TBody (c : N)                (* thread of c, inside the handler, has read the complete body *)
+  | TTimeout (c : N)             (* socket.timeout in the thread of c: while it waits for the head or for the body *)
   | LBuild                       (* loop: build rlist, enter select *)
   | LSelect                      (* select returns all ready descriptors of rlist (only if there is one) *)
   | LBody (acc : option N)       (* loop body after select; acc = the listener rset.pop() yields, if any *)
@@ -149,6 +165,8 @@ Inductive obs :=
   | OEnter (c : N)
   | OAnswer (c : N) (st : N)
   | OTimedOut (c : N)
+  | OBodyRead (c : N)
+  | OBodyTimedOut (c : N)
   | OEofSeen (c : N)
   | OHandlerDone (c : N)
   | OWaited (c : N)
@@ -201,6 +219,21 @@ Definition with_pc (s : state) (p : pcs) : state :=
 Definition with_workers (s : state) (ws : list worker) : state :=
   mkS (pc s) ws (backlog s) (stop s) (next_id s) (finished s) (accepted s) (entered s).
 
+(* the request head is not complete yet (nothing or only a part of it was sent) *)
+Definition head_open (cl : cstate) : bool := match cl with CIdle | CPartial => true | _ => false end.
+
+(* the declared body has arrived completely *)
+Definition body_full (cl : cstate) : bool := match cl with CSent _ true => true | _ => false end.
+
+(* the thread is blocked on the client socket and the client has not delivered what it waits for:
+   the request head (nothing or only a part of it sent) or, inside the handler, the rest of the body *)
+Definition waits_for_client (w : worker) : bool :=
+  match w_st w with
+  | WReading => head_open (w_cl w)
+  | WBody => negb (body_full (w_cl w))
+  | _ => false
+  end.
+
 Definition is_pdone (p : pcs) : bool := match p with PDone => true | _ => false end.
 
 (* ---- the step function: None = the event cannot happen in this state ---- *)
@@ -213,16 +246,45 @@ Definition step (cfg : config) (s : state) (e : event) : option (state * list ob
                   (N.succ (next_id s)) (finished s) (accepted s) (entered s),
               [ONewConn (next_id s)])
       else None
-  | ESend c m =>
+  | EPartial c =>
       match find_b c (backlog s) with
       | Some b => match b_cl b with
-                  | CIdle => Some (mkS (pc s) (workers s) (upd_b c (set_bcl (CSent m)) (backlog s)) (stop s)
+                  | CIdle => Some (mkS (pc s) (workers s) (upd_b c (set_bcl CPartial) (backlog s)) (stop s)
                                        (next_id s) (finished s) (accepted s) (entered s), [])
                   | _ => None end
       | None =>
         match find_w c (workers s) with
         | Some w => match w_cl w, w_st w with
-                    | CIdle, WReading => Some (with_workers s (upd_w c (set_wcl (CSent m)) (workers s)), [])
+                    | CIdle, WReading => Some (with_workers s (upd_w c (set_wcl CPartial) (workers s)), [])
+                    | _, _ => None end
+        | None => None
+        end
+      end
+  | ESend c m full =>
+      match find_b c (backlog s) with
+      | Some b => if head_open (b_cl b) then
+                    Some (mkS (pc s) (workers s) (upd_b c (set_bcl (CSent m full)) (backlog s)) (stop s)
+                              (next_id s) (finished s) (accepted s) (entered s), [])
+                  else None
+      | None =>
+        match find_w c (workers s) with
+        | Some w => match head_open (w_cl w), w_st w with
+                    | true, WReading => Some (with_workers s (upd_w c (set_wcl (CSent m full)) (workers s)), [])
+                    | _, _ => None end
+        | None => None
+        end
+      end
+  | EBody c =>
+      match find_b c (backlog s) with
+      | Some b => match b_cl b with
+                  | CSent m false => Some (mkS (pc s) (workers s) (upd_b c (set_bcl (CSent m true)) (backlog s)) (stop s)
+                                               (next_id s) (finished s) (accepted s) (entered s), [])
+                  | _ => None end
+      | None =>
+        match find_w c (workers s) with
+        | Some w => match w_cl w, w_st w with
+                    | CSent m false, WReading | CSent m false, WBody =>
+                        Some (with_workers s (upd_w c (set_wcl (CSent m true)) (workers s)), [])
                     | _, _ => None end
         | None => None
         end
@@ -256,12 +318,13 @@ Definition step (cfg : config) (s : state) (e : event) : option (state * list ob
       match find_w c (workers s) with
       | Some w =>
         match w_st w, w_cl w with
-        | WReading, CSent RGarbage =>
+        | WReading, CSent RGarbage _ =>
             Some (with_workers s (upd_w c (set_st (WDone (OResp 400%N))) (workers s)), [OAnswer c 400%N])
-        | WReading, CSent (RHttp r) =>
+        | WReading, CSent (RHttp r) _ =>
             match gate_status (gate (gc cfg) r) with
             | Some st => Some (with_workers s (upd_w c (set_st (WDone (OResp st))) (workers s)), [OAnswer c st])
-            | None => Some (mkS (pc s) (upd_w c (set_st WHandling) (workers s)) (backlog s) (stop s) (next_id s)
+            | None => Some (mkS (pc s) (upd_w c (set_st (if r_body r then WBody else WHandling)) (workers s))
+                                (backlog s) (stop s) (next_id s)
                                 (finished s) (accepted s) (entered s ++ [c]), [OEnter c])
             end
         | WReading, CClosed =>
@@ -270,13 +333,30 @@ Definition step (cfg : config) (s : state) (e : event) : option (state * list ob
         end
       | None => None
       end
+  | TBody c =>
+      match find_w c (workers s) with
+      | Some w =>
+        match w_st w with
+        | WBody => if body_full (w_cl w)
+                   then Some (with_workers s (upd_w c (set_st WHandling) (workers s)), [OBodyRead c])
+                   else None
+        | _ => None
+        end
+      | None => None
+      end
   | TTimeout c =>
       if timeout_on cfg then
         match find_w c (workers s) with
-        | Some w => match w_st w, w_cl w with
-                    | WReading, CIdle =>
-                        Some (with_workers s (upd_w c (set_st (WDone OTimeout)) (workers s)), [OTimedOut c])
-                    | _, _ => None end
+        | Some w => match w_st w with
+                    | WReading =>
+                        if head_open (w_cl w) then
+                          Some (with_workers s (upd_w c (set_st (WDone OTimeout)) (workers s)), [OTimedOut c])
+                        else None
+                    | WBody =>
+                        if body_full (w_cl w) then None
+                        else Some (with_workers s (upd_w c (set_st (WDone OAborted)) (workers s)), [OBodyTimedOut c])
+                    | _ => None
+                    end
         | None => None
         end
       else None
@@ -367,7 +447,7 @@ Fixpoint run_obs (cfg : config) (s : state) (evs : list event) (i : N) : (list o
   end.
 
 Definition handling (s : state) : nat :=
-  length (filter (fun w => match w_st w with WHandling => true | _ => false end) (workers s)).
+  length (filter (fun w => match w_st w with WHandling | WBody => true | _ => false end) (workers s)).
 
 (* ---- decidable equality of observations (used by the correspondence files) ---- *)
 Fixpoint eqb_listN (a b : list N) : bool :=
@@ -388,6 +468,8 @@ Definition obs_eqb (a b : obs) : bool :=
   | OEnter c, OEnter d => N.eqb c d
   | OAnswer c s, OAnswer d t => N.eqb c d && N.eqb s t
   | OTimedOut c, OTimedOut d => N.eqb c d
+  | OBodyRead c, OBodyRead d => N.eqb c d
+  | OBodyTimedOut c, OBodyTimedOut d => N.eqb c d
   | OEofSeen c, OEofSeen d => N.eqb c d
   | OHandlerDone c, OHandlerDone d => N.eqb c d
   | OWaited c, OWaited d => N.eqb c d
